@@ -333,6 +333,8 @@ PLANS = [
     dict(name="service_and_device", blocks=[(["svc", "dev"], "m")]),
     dict(name="dotted_depth2", blocks=[(["enum1", "struct2", "impl2"], "a.b")]),
     dict(name="two_modules", blocks=[(["enum1"], "m"), (["struct3", "impl3", "svc"], "x.y")]),
+    dict(name="dotted_then_flat", blocks=[(["enum1"], "a.b"), (["struct3", "impl3"], "m"), (["dev"], "z")]),
+    dict(name="binding_alone", blocks=[(["impl2"], "m"), (["impl3"], "n.o")]),
     dict(name="nested", blocks=[(["enum1", "struct2"], "a.b")], nested={"a.b": (["enum1"], "c")}),
     dict(name="depth3", blocks=[(["enum1", "struct2", "impl2", "struct3"], "a.b.c")]),
     dict(name="everything_but_last", blocks=[(["enum1", "struct2", "impl2", "struct3", "impl3", "svc", "dev"], "all")]),
